@@ -214,10 +214,20 @@ def classify_side(rec):
     under their own id."""
     fid = classify_first(rec)
     if fid is None:
-        fid = E.classify_common(rec)
-    if fid is None:
         fid = classify_c06(rec)
+    if fid is None:
+        fid = E.classify_common(let_view(rec))
     return None if fid in REPAIRED else fid
+
+
+def let_view(rec):
+    """the record as the shared classifier expects a let-bound program: a single `let@k` / `into@k` rewrite of a generated program IS
+    that program with its first k steps named (prog.Program's meta let_at), so the shared let-specific classes apply to it"""
+    m = re.fullmatch(r"(?:let|into)@(\d+)", rec.get("label") or "")
+    pg = rec["program"]
+    if not m or int(m.group(1)) < 1 or pg.__class__ is not P.Program or rec["prql"] == pg.prql() or pg.meta.get("let_at"):
+        return rec
+    return dict(rec, program=P.Program(pg.steps, pg.ordered, pg.final_cols, dict(pg.meta, let_at=int(m.group(1)))))
 
 
 _AGG_SELECT_ORDERED = re.compile(r"\(SELECT ((?:[^()]|\((?:[^()]|\([^()]*\))*\))*?) FROM \w+ ORDER BY ([^()]*?)\) AS table_\d+")
@@ -711,11 +721,27 @@ def directed_shared(ck, rng):
     cases = []
     bases = []
     for fid, pg, inst in E.directed_known(rng):
-        if isinstance(pg, P.RawProgram) or pg.meta.get("let_at"):
-            continue            # let-bound forms are what the let rewrite produces anyway (F62 / F64 / F68 / C07-N1)
+        if isinstance(pg, P.RawProgram):
+            continue
+        if pg.meta.get("let_at"):
+            # the let-bound form is what the let rewrite at that position produces: the base is the inline form
+            pg = P.Program(pg.steps, pg.ordered, pg.final_cols, {k: v for k, v in pg.meta.items() if k != "let_at"})
         bases.append((pg, [inst] if inst else None))
+    # F38: join of tables sharing a column name, sort by the left one, take, then select the RIGHT one
+    def qcol(q, c):
+        return "ECol (Some %d%%N) %d%%N" % (P.nid(q), P.nid(c))
+    for side, sd in (("Inner", ""), ("LeftJ", "side:left ")):
+        k_ = rng.choice(["id", "g"])
+        picks = [("t", "a"), ("u", k_), ("u", "d")]
+        bases.append((P.Program([
+            P.Step("join", "join %su (t.id == u.id)" % sd, "TJoin %s %d%%N U_COLS U_TABLE (EBin Eq (%s) (%s))" % (side, P.nid("u"), qcol("t", "id"), qcol("u", "id")), side=side, one_to_one=True),
+            P.Step("sort", "sort {t.%s, t.id}" % k_, "TSort [(false, %s); (false, %s)]" % (qcol("t", k_), qcol("t", "id")), keys=[(False, ("col", "t", k_)), (False, ("col", "t", "id"))]),
+            P.Step("take", "take 3", "TTake None (Some (3))", rng=(None, 3)),
+            P.Step("select", "select {%s}" % ", ".join("%s.%s" % p_ for p_ in picks), "TSelect [%s]" % "; ".join("(None, %s)" % qcol(*p_) for p_ in picks), final=True)],
+            True, [c for _, c in picks], {"key_pos": None}), None))
     g = W.RGen(rng, max_steps=5)
-    for force in (["sort", "take", "distinct"], ["take", "distinct"], ["sort", "take", "sort", "take", "group_agg"], ["sort", "take", "sort", "take", "aggregate"]):
+    for force in (["sort", "take", "distinct"], ["take", "distinct"], ["sort", "take", "sort", "take", "group_agg"], ["sort", "take", "sort", "take", "aggregate"],
+                  ["sort", "take", "sort", "take", "group_agg"]):
         for _ in range(ck.n(2, 4)):
             pg = g.program(n_steps=len(force), force=list(force))
             bases.append((pg, None))
